@@ -5,7 +5,11 @@ import Std.Data.HashMap
 driver for the BlockAlloc model (property C19)
 
 Lines:
-* `pool <bs>`           reset; `bs ∈ {2, 3, 256}` (the instantiations the harness has)
+* `pool <bs> [kind]`    reset; `bs ∈ {2, 3, 256}` (the instantiations the harness has); `kind` = the element
+                        type of the harness's pool: `e16` (default; 16-aligned, owns other elements) or one of the
+                        small types `s1 s2 s3 h2` (1, 2, 3 bytes of alignment 1; 2 bytes of alignment 2).  The
+                        allocator's algorithm does not depend on the element type — the model is the same — but a
+                        small element cannot own anything: `own` is illegal there
 * `alloc`               `ok id=<element ordinal> b=<block ordinal> i=<slot index> blocks=<BlockCount>`
 * `own <p> <c>`         element `p` now owns element `c` (its destructor destroys and frees `c`)
 * `del <id>`            destroy (cascading through owned elements) and free: `ok d=<ids> blocks=<n>`
@@ -20,6 +24,7 @@ open Morfuse.BlockAlloc
 
 structure St where
   bs : Nat := 0                                   -- 0: no pool yet
+  owns : Bool := true                             -- the element type can own other elements (`e16`)
   s : State := init
   nextElem : Nat := 1
   slotOf : Std.HashMap Nat Slot := {}             -- live element id → slot
@@ -58,6 +63,13 @@ def step (st : St) (t : List String) : St × String :=
     match n.toNat? with
     | some bs => if bs = 2 ∨ bs = 3 ∨ bs = 256 then ({ bs := bs }, "ok") else (st, "bad-op")
     | none => (st, "bad-op")
+  | ["pool", n, kind] =>
+    match n.toNat? with
+    | some bs =>
+      if (bs = 2 ∨ bs = 3 ∨ bs = 256) ∧ (kind = "e16" ∨ kind = "s1" ∨ kind = "s2" ∨ kind = "s3" ∨ kind = "h2") then
+        ({ bs := bs, owns := kind = "e16" }, "ok")
+      else (st, "bad-op")
+    | none => (st, "bad-op")
   | ["alloc"] =>
     if st.bs = 0 then (st, "bad-op") else
     let r := alloc st.bs st.s
@@ -67,7 +79,7 @@ def step (st : St) (t : List String) : St × String :=
   | ["own", p, c] =>
     match p.toNat?, c.toNat? with
     | some p, some c =>
-      if st.slotOf.contains p ∧ st.slotOf.contains c ∧ p ≠ c ∧ ¬ st.parent.contains c ∧ ¬ isAncestor st c p then
+      if st.owns ∧ st.slotOf.contains p ∧ st.slotOf.contains c ∧ p ≠ c ∧ ¬ st.parent.contains c ∧ ¬ isAncestor st c p then
         ({ st with parent := st.parent.insert c p, kids := st.kids.insert p (kidsOf st p ++ [c]) }, "ok")
       else (st, "bad-op")
     | _, _ => (st, "bad-op")
